@@ -31,7 +31,8 @@ def scenarios(tier, seed):
     if tier == "quick":
         plan = [("SDR", "samebank", "same_r", 2), ("SDR", "allwrite", "other_r", 2), ("DDR3", "allread", "other_w", 3),
                 ("DDR3", "altrow", "same_w", 2), ("DDR", "samerow", "same_r", 2), ("DDR3_200", "allwrite", "mixed", 4),
-                ("DDR4", "samebank", "other_r", 3), ("DDR2", "allread", "same_w", 2)]
+                ("DDR4", "samebank", "other_r", 3), ("DDR2", "allread", "same_w", 2),
+                ("DDR3_half", "allwrite", "other_r", 3), ("DDR3_half", "allread", "other_w", 3)]
         ncmd = 6000
     else:
         plan = []
@@ -50,16 +51,22 @@ def scenarios(tier, seed):
             ports.append(dict(AGGR[a], ncmd=ncmd, seed=20 + k))
         out.append(scenario("%s-%s-%s-%dp" % (b, a, v, nports), b, ports, seed * 7 + i, tech=dict(tREFI=2000),
                             ctrl=dict(cmd_buffer_depth=[8, 4, 2][i % 3]), max_cycles=400000, drain=60000, sweep_max=40))
-    return out
+    from . import c03
+    return out + c03.mux_lockstep_scenarios(tier, seed)[:2]
 
 
 def models(tier, seed):
     return [dict(module="D_Crossbar", cfg="MC_Crossbar_live.cfg", label="crossbar: global progress under fair bank service (liveness)", workers=2, timeout=1800),
             dict(module="D_Crossbar", cfg="MC_Crossbar_d6.cfg", label="known finding D6 on the model: one master can be starved by another streaming to the same bank",
-                 workers=2, timeout=1800, expect_violation=True)]
+                 workers=2, timeout=1800, expect_violation=True),
+            dict(module="MC_Multiplexer", cfg="MC_Multiplexer_live.cfg", label="multiplexer: pending reads/writes are served despite a continuous opposite stream (liveness)", workers=2, timeout=1800),
+            dict(module="MC_Multiplexer", cfg="MC_Multiplexer_neg_starve.cfg", label="negative control: anti-starvation time-outs disabled", workers=2, timeout=1800, expect_violation=True)]
 
 
 def execute(sc, workdir):
+    if sc.get("kind") == "lockstep-mux":
+        from . import c03
+        return c03._lockstep_mux(sc, workdir)
     r = execute_core(sc, workdir, ID, ("rsp",))
     r["nontrivial"] = [[sc["memtype"], sc["clk_khz"]] + sc["name"].split("-")[1:3]]
     r["stats"]["worst_accept_wait_tck"] = 0
